@@ -3,5 +3,6 @@ CONSTANT Depth = 3
 CONSTANT DcShift = "4294966295"
 CONSTANT Hook = FALSE
 CONSTANT Side = "listener"
+CONSTANT Mms = 0
 INVARIANT Emit
 CHECK_DEADLOCK FALSE
